@@ -14,19 +14,20 @@ LEVEL = 'exploration'
 TECHNIQUE = ('bounded-exhaustive enumeration (model checking of the implementation), differential: all argument sequences up to length 3/4 over 9 '
              'argument classes x 6 modes on the real trash-put; per-argument snapshot classification vs the same argument run alone')
 LEVEL_TEXT = ('every sequence of argument classes (trashable file/dir/symlink, nonexistent, ".", "..", non-UTF-8 name, un-trashable by layout, duplicate of the '
-              'previous) is executed; exit status must be 0 iff every argument was trashed or legitimately skipped, every failed argument must be named on '
+              'previous, the empty string, a name starting with @) is executed; exit status must be 0 iff every argument was trashed or legitimately skipped, every failed argument must be named on '
               'stderr, and each argument must end exactly as when it is run alone on the same initial world')
 LEVEL_NOTE = 'trusted: snapshot classifier; end-of-input at an -i prompt is excluded (covered by C01); permission failures are not modelled (root)'
-RULE = ('sequences of length 1..3 (thorough 1..4) over {file, dir, link, dangling link, missing, dot, dotdot, nonutf8, untrashable, dup} (dup not first) x mode {-, -f, -i all y, '
+RULE = ('sequences of length 1..3 (thorough 1..4) over {file, dir, link, dangling link, missing, dot, dotdot, nonutf8, untrashable, dup, empty string, @name (the last two only in sequences of length <= 2 in the quick tier)} (dup not first) x mode {-, -f, -i all y, '
         '-i all n, -i alternating, -v, HOME with regex metacharacters}; non-trivial = at least two arguments with different outcomes; distinct = (mode, multiset of classes, exit, outcome vector)')
-CLASSES = ['file', 'dir', 'link', 'dangling', 'missing', 'dot', 'dotdot', 'nonutf8', 'untrashable', 'dup']
+CLASSES = ['file', 'dir', 'link', 'dangling', 'missing', 'dot', 'dotdot', 'nonutf8', 'untrashable', 'dup', 'emptystr', 'atname']
+NEWER = ('emptystr', 'atname')          # quick: only in sequences of length <= 2
 MODES = ['-', '-f', '-iy', '-in', '-ialt', '-v', 'odd-home']
 B = '/home/u/w'
 PROMPT = re.compile(r"trash-put: trash .*? '(.*?)'\? ", re.S)
 
 
 def dimensions(tier):
-    return {'classes': 10, 'max_len': 4 if tier == 'thorough' else 3, 'modes': 7}
+    return {'classes': len(CLASSES), 'max_len': 4 if tier == 'thorough' else 3, 'modes': 7}
 
 
 def cases(tier):
@@ -35,6 +36,8 @@ def cases(tier):
         for k in range(1, (4 if tier == 'thorough' else 3) + 1):
             for seq in itertools.product(CLASSES, repeat=k):
                 if seq[0] == 'dup':
+                    continue
+                if k >= 3 and tier != 'thorough' and any(x in NEWER for x in seq):
                     continue
                 out.append({'seq': list(seq), 'mode': mode})
     return out
@@ -70,6 +73,12 @@ def make_world(seq):
         elif cl == 'untrashable':
             W.file('/mnt/vb/u%d' % i, 'stuck\n')
             args.append(('/mnt/vb/u%d' % i, '/mnt/vb/u%d' % i))
+        elif cl == 'emptystr':
+            args.append(('', None))                       # e.g. an unset shell variable: names nothing, must count as a failure
+        elif cl == 'atname':
+            W.file('%s/@a%d' % (B, i), 'a file whose name starts with @\n')
+            W.file('%s/a%d' % (B, i), 'not-an-argument-%d\n' % i)          # a sibling that an @file reader would take for an argument list
+            args.append(('@a%d' % i, '%s/@a%d' % (B, i)))
         elif cl == 'dup':
             args.append(args[-1])
     return W, args
@@ -95,7 +104,7 @@ def outcomes(before, r, after, args, mode):
     # (independent of the wording of the question)
     prompts = []
     if mode.startswith('-i'):
-        names = sorted({a for a, _ in args}, key=len, reverse=True)
+        names = sorted({a for a, _ in args if a}, key=len, reverse=True)          # (the empty string is never asked about)
         for chunk in r.out.split('? ')[:-1]:
             best = None
             for a in names:
